@@ -84,3 +84,19 @@ Proof. rewrite principal_R. set (h := (a - c) / 2). set (r := sqrt (h * h + b * 
 (* an isotropic tensor -p I has both principal stresses equal to -p *)
 Theorem principal_isotropic (p : R) : principal ROps (- p, 0, - p) = (- p, - p).
 Proof. rewrite principal_R. replace ((- p - - p) / 2 * ((- p - - p) / 2) + 0 * 0) with 0 by field. rewrite sqrt_0. f_equal; field. Qed.
+
+(* the tensor of a grid cell does not depend on the order in which the selected cells and interfaces are listed *)
+From Coq Require Import Permutation.
+Lemma rsumN_perm (l1 l2 : list R) : Permutation l1 l2 -> rsumN l1 = rsumN l2.
+Proof. induction 1 as [|x l1 l2 _ IH|x y l|l1 l2 l3 _ IH1 _ IH2]; [reflexivity| | |congruence].
+  - rewrite !rsum_cons, IH. reflexivity.
+  - rewrite !rsum_cons. ring. Qed.
+Theorem sigma_order_independent cells cells' edges edges' : Permutation cells cells' -> Permutation edges edges' ->
+  sigma ROps cells edges = sigma ROps cells' edges'.
+Proof. intros Pc Pe. unfold sigma, total_area, pressure_term, tens_term.
+  rewrite (rsumN_perm _ _ (Permutation_map fst Pc)).
+  rewrite (rsumN_perm _ _ (Permutation_map (fun c => mul ROps (snd c) (fst c)) Pc)).
+  rewrite (rsumN_perm _ _ (Permutation_map (fun e => let '(t, (vx, vy, nrm)) := e in div ROps (mul ROps t (mul ROps vx vx)) nrm) Pe)).
+  rewrite (rsumN_perm _ _ (Permutation_map (fun e => let '(t, (vx, vy, nrm)) := e in div ROps (mul ROps t (mul ROps vx vy)) nrm) Pe)).
+  rewrite (rsumN_perm _ _ (Permutation_map (fun e => let '(t, (vx, vy, nrm)) := e in div ROps (mul ROps t (mul ROps vy vy)) nrm) Pe)).
+  reflexivity. Qed.
